@@ -46,3 +46,33 @@ Theorem C04_variant_writer_stays_in_its_sections :
   forall tv parent p p', ser_tvar parent tv p = Ok p' -> only_in is_variant_section p p'.
 Proof. exact ser_tvar_only. Qed.
 Print Assumptions C04_variant_writer_stays_in_its_sections.
+
+(* reader on the writer's table: the header the writer put there is the current one, and WHATEVER the reader returns for a
+   table the writer produced carries the written release name/short/version/is_layered and the tree's arch, platform set and
+   (integer part of the) build timestamp. (That the reader does return something, and the variant/image/checksum sections,
+   are decided by the docs_treeinfo correspondence.) *)
+From PM Require Import Proofs.TreeInfoReadBack Gen.Tables.
+Theorem C04_release_and_tree_read_back :
+  forall x mv t x', ser_ti x mv = Ok t -> deser_ti t = Ok x' ->
+  getf (ti_release x') (F"name") = getf (ti_release x) (F"name") /\
+  getf (ti_release x') (F"short") = getf (ti_release x) (F"short") /\
+  getf (ti_release x') (F"version") = getf (ti_release x) (F"version") /\
+  getf (ti_release x') (F"is_layered") = PBool (truthy (getf (ti_release x) (F"is_layered"))) /\
+  getf (ti_tree x') (F"arch") = getf (ti_tree x) (F"arch") /\
+  getf (ti_tree x') (F"platforms") = PList (sort_set (map PStr (split_nonempty (platforms_str (ti_tree x))))) /\
+  exists ts_s, py_str_num (getf (ti_tree x) (F"build_timestamp")) = Ok ts_s /\
+               float_text_to_int ts_s = Ok (getf (ti_tree x') (F"build_timestamp")).
+Proof. exact release_and_tree_read_back. Qed.
+Print Assumptions C04_release_and_tree_read_back.
+
+Theorem C04_written_header_is_current_and_layered_flag :
+  forall x mv t, ser_ti x mv = Ok t ->
+  ini_get t (F"header") (F"version") = Ok (show_version VERSION) /\ ini_get t (F"header") (F"type") = Ok ti_mtype /\
+  (if truthy (getf (ti_release x) (F"is_layered")) then ini_get t (F"release") (F"is_layered") = Ok (F"true")
+   else has_option t (F"release") (F"is_layered") = false).
+Proof. exact written_header_and_layered. Qed.
+Print Assumptions C04_written_header_is_current_and_layered_flag.
+
+(* non-vacuity: the example tree of the writer theorem is read back by the model reader *)
+Example C04_read_back_nonvacuous : exists t x', ser_ti ex_ti None = Ok t /\ deser_ti t = Ok x'.
+Proof. eexists. eexists. split; vm_compute; reflexivity. Qed.
